@@ -193,6 +193,14 @@ def run_world(plan, world=None):
       cnt['i'] += 1
       return ch[cnt['i'] % len(ch)]
     net.chunker = chunker
+  stalls = dict((int(p_), sp_['stall']) for p_, sp_ in plan['servers'].items() if sp_.get('stall'))
+  if stalls:
+    def stall_fn(sock, data, idx):
+      st_ = stalls.get(sock.addr[1]) if sock.addr else None
+      if st_ and sock.nth == st_.get('conn', 0) and idx == st_['send_index'] and len(data) > st_['cut'] + 1:
+        return (len(data) - st_['cut'], st_['for_ms'] / 1000.0)
+      return None
+    net.stall = stall_fn
   gate = plan.get('gate')
   tr.gate_evt = None
   if gate:
